@@ -34,6 +34,18 @@ def dominates(fn, a, b):
     return a in fn.dominators().get(b, set())
 
 
+def edom(fn, tgt, b):
+    """Block b only executes after the *edge* into tgt was taken: tgt dominates b and tgt has a single entry edge
+    (predecessors that tgt itself dominates are loop back-edges and do not count)."""
+    if tgt is None:
+        return False
+    dom = fn.dominators()
+    if tgt not in dom.get(b, set()):
+        return False
+    entries = [p for p in fn.preds().get(tgt, []) if tgt not in dom.get(p, set()) and p in dom]
+    return len(entries) <= 1
+
+
 def switch_of_local(fn, local, start_bb, max_steps=6):
     """Find the switch that tests `local` (directly if bool, or via discriminant(local)) at/after start_bb along straight-line flow.
     Returns (switch bb, {value: target}, otherwise) or None."""
